@@ -379,6 +379,8 @@ impl Doc {
                             style,
                         });
                         res.payload.push_str(first);
+                        // the first line ends here
+                        break;
                     } else {
                         res.tokens.push(t);
                         res.payload.push_str(&self.payload[cur..cur + bytes]);
